@@ -10,9 +10,44 @@ import numpy as np
 
 from . import gen, oracles as O
 
-CLASSES = ["gap", "touch", "overlap", "deep", "same", "copy", "nested", "lattice", "parallel", "free", "far", "coplanar"]
-DEFAULT_P = {"gap": .2, "touch": .12, "overlap": .1, "deep": .1, "same": .03, "copy": .04, "nested": .06, "lattice": .1,
-             "parallel": .07, "free": .08, "far": .05, "coplanar": .05}
+CLASSES = ["gap", "touch", "overlap", "deep", "same", "copy", "nested", "lattice", "parallel", "free", "far", "coplanar",
+           "feature"]
+DEFAULT_P = {"gap": .2, "touch": .12, "overlap": .1, "deep": .1, "same": .03, "copy": .04, "nested": .06, "lattice": .08,
+             "parallel": .06, "free": .07, "far": .05, "coplanar": .04, "feature": .05}
+
+
+def quarter_turn(rng):
+    """rotation by a multiple of 90 degrees built from cos/sin (entries like 6.1e-17 instead of exact zeros,
+    as user code produces them), possibly composed of two such turns"""
+    R = np.eye(3)
+    for _ in range(int(rng.integers(1, 3))):
+        a = float(rng.integers(0, 4)) * 0.5 * np.pi
+        c, s_ = np.cos(a), np.sin(a)
+        ax = int(rng.integers(3))
+        i, j = [(1, 2), (2, 0), (0, 1)][ax]
+        Q = np.eye(3)
+        Q[i, i] = c; Q[j, j] = c; Q[i, j] = -s_; Q[j, i] = s_
+        R = R @ Q
+    return R
+
+
+def feature_points(o, R):
+    """reference / extreme points of a shape: centre, deep point, support points along +-frame axes and
+    along the frame diagonals (corners, rim points, apex, face and edge points)"""
+    pts = [o.center(), o.deep_point()[0]]
+    dirs = []
+    for i in range(3):
+        dirs += [R[:, i], -R[:, i]]
+    for sx in (-1, 1):
+        for sy in (-1, 1):
+            for sz in (-1, 1):
+                dirs.append(sx * R[:, 0] + sy * R[:, 1] + sz * R[:, 2])
+    for d in dirs:
+        pts.append(o.sup(d))
+    # midpoints between two axis support points (edge / face centres)
+    pts.append(0.5 * (o.sup(R[:, 0] + R[:, 1]) + o.sup(R[:, 0] - R[:, 1])))
+    pts.append(0.5 * (o.sup(R[:, 2]) + o.sup(-R[:, 2])))
+    return pts
 
 
 def _pick_class(rng, p):
@@ -94,6 +129,23 @@ def make_pair(rng, kA=None, kB=None, margin_p=0.15, class_p=None, smin=1e-2, sma
     elif cls == "parallel":
         R = gen.rand_rot(rng)
         sA = spec(kA, rot=R, far_ok=False); sB = spec(kB, rot=R if rng.random() < 0.7 else R @ gen.rand_rot(rng, "axis"), far_ok=False)
+    elif cls == "feature":
+        # feature-on-feature placement: a corner/rim/apex/face point of B coincides exactly with one of A,
+        # the frames differ by quarter turns built from cos/sin
+        RA = gen.rand_rot(rng, str(rng.choice(["ident", "perm", "axis", "haar"], p=[.3, .2, .2, .3])))
+        if rng.random() < 0.5:
+            RA = quarter_turn(rng) if rng.random() < 0.5 else RA
+        RB = RA @ quarter_turn(rng)
+        cA = rng.integers(-2, 3, size=3).astype(float) if rng.random() < 0.6 else None
+        if rng.random() < 0.5:
+            sA = lattice_spec(rng, kA); sB = lattice_spec(rng, kB)
+            sA = _with_rot(sA, RA); sB = _with_rot(sB, RB)
+        else:
+            sA = spec(kA, rot=RA, c=cA, far_ok=False); sB = spec(kB, rot=RB, far_ok=False)
+        oA0 = O.oracle(sA); oB0 = O.oracle(sB)
+        fa = feature_points(oA0, RA); fb = feature_points(oB0, RB)
+        pa_ = fa[int(rng.integers(len(fa)))]; pb_ = fb[int(rng.integers(len(fb)))]
+        sB = O.translated(sB, pa_ - pb_)
     elif cls == "coplanar":
         # both shapes share a plane through their centres (normal = third column of a common rotation)
         R = gen.rand_rot(rng)
@@ -155,6 +207,24 @@ def make_pair(rng, kA=None, kB=None, margin_p=0.15, class_p=None, smin=1e-2, sma
             truth["common"] = pA; truth["depth"] = 0.0
     label = cls + ("+" + "+".join(sorted(set(tags))) if tags else "")
     return sA, sB, label, truth
+
+
+def _with_rot(spec, R):
+    """replace the rotation of a posed spec (keeps position and sizes)"""
+    k = spec["kind"]
+    s = dict(spec)
+    if k == "margin":
+        s["base"] = _with_rot(spec["base"], R); return s
+    if "T" in spec:
+        T = np.array(spec["T"], float); T[:3, :3] = R; s["T"] = T
+    elif k == "disk":
+        s["n"] = np.ascontiguousarray(R[:, 2])
+    elif k == "ellipse":
+        s["axes"] = np.ascontiguousarray(R[:, :2].T)
+    elif k == "hull":
+        V = np.asarray(spec["V"], float); c = V.mean(axis=0)
+        s["V"] = np.ascontiguousarray((V - c) @ R.T + c)
+    return s
 
 
 def _copy_spec(s):
@@ -233,9 +303,15 @@ def scene(sA, sB):
     return oA, oB, O.scene_L([oA, oB])
 
 
-def build_pair(sA, sB):
-    A = gen.build(sA)
-    B = A if sB is sA else gen.build(sB)
+def build_pair(sA, sB, rng=None, p_update=0.0):
+    """library colliders of a pair; with rng and p_update > 0 a collider is (with that probability) built at
+    another pose and brought to its place by update_pose()"""
+    def b(s):
+        if rng is not None and p_update > 0 and rng.random() < p_update:
+            return gen.build_via_update(s, rng)
+        return gen.build(s)
+    A = b(sA)
+    B = A if sB is sA else b(sB)
     return A, B
 
 
